@@ -53,8 +53,7 @@ def begin_path():
     PATHS += 1
     _PATH_TAGS.clear()
     if PATHS % 100 == 0 and os.environ.get('VKOPF_PROGRESS'):
-        import sys, time
-        print(f'[vkopf] paths={PATHS} nontrivial={NONTRIVIAL_PATHS} t={time.process_time():.0f}s', file=sys.stderr, flush=True)
+        os.write(2, b'[vkopf] paths=%d nontrivial=%d\n' % (PATHS, NONTRIVIAL_PATHS))
 
 
 def witness(tag):
